@@ -52,6 +52,11 @@ TABLE = [
     ("ERR_UNRECOGNIZED_CRITICAL_RECORD", N, r"(\d+) => Self::UnrecognizedCriticalRecord,", "int"),
     ("ERR_BAD_REQUEST", N, r"(\d+) => Self::BadRequest,", "int"),
     ("ERR_INTERNAL_SERVER_ERROR", N, r"(\d+) => Self::InternalServerError,", "int"),
+    ("NTP_DEFAULT_PORT", "ntp-proto/src/lib.rs", r"const NTP_DEFAULT_PORT: u16 = (\d+);", "int"),
+    # server decisions (mod.rs): the two token tests of handle_connection, the find() of the negotiation
+    ("TOKEN_TESTS", N, r"(\.pool_authentication_tokens\s*\.iter\(\)\s*\.any\(\|v\| v == authentication\.as_ref\(\)\))", "count"),
+    ("PROTOCOL_FIND", N, r"(protocols\s*\.iter\(\)\s*\.find\(\|v\| self\.protocols\.contains\(v\)\))", "count"),
+    ("ALGORITHM_FIND", N, r"(algorithms\s*\.iter\(\)\s*\.find\(\|v\| !matches!\(v, AeadAlgorithm::Unknown\(_\)\)\))", "count"),
     # panic-site census of Request::parse / KeyExchangeResponse::parse: the guarded `[0]` indexings
     ("MSG_INDEX0_SITES", M, r"((?:algorithms|protocols)\[0\])", "count"),
     ("MSG_LEN_GUARD", M, r"(if protocols\.len\(\) != 1 \|\| algorithms\.len\(\) != 1 \{\s*return Err\(NtsError::Invalid\);)", "count"),
